@@ -1,9 +1,61 @@
 import QecVerif.Model.Wire
+import QecVerif.Model.Distance
+import QecVerif.Model.Basic
+import QecVerif.Model.Lattice.Planar
+import QecVerif.Model.Lattice.RotatedPlanar
+import QecVerif.Model.Lattice.Toric
+import QecVerif.Model.Lattice.RotatedToric
+import QecVerif.Model.Lattice.Color666
 namespace Qec.Drv
-open Qec Qec.Wire
+open Qec Qec.Wire Qec.Distance
 
-/-- driver ops of property C08 (first protocol token `c08`) -/
+/-- the `d` component of the model's `n_k_d` -/
+def c08ModelD : List String → Option String
+  | ["planar", r, c] => do let r ← parseInt? r; let c ← parseInt? c; pure (toString (Planar.nkd r c).2.2)
+  | ["rotatedplanar", r, c] => do let r ← parseInt? r; let c ← parseInt? c; pure (toString (RotatedPlanar.nkd r c).2.2)
+  | ["toric", r, c] => do let r ← parseInt? r; let c ← parseInt? c; pure (toString (Toric.nkd r c).2.2)
+  | ["rotatedtoric", r, c] => do let r ← parseInt? r; let c ← parseInt? c; pure (toString (RotatedToric.nkd r c).2.2)
+  | ["color666", l] => do let l ← parseInt? l; pure (toString (Color666.nkd l).2.2)
+  | ["five"] => pure (showOpt toString Basic.fiveQubit.d)
+  | ["steane"] => pure (showOpt toString Basic.steane.d)
+  | _ => none
+
+def showOptBits : Option BVec → String
+  | none => "none" | some e => "some " ++ showBits e
+
+/-- driver ops of property C08 (first protocol token `c08`).  Matrices are the REAL `code.stabilizers`,
+    `code.logicals` as bit strings.
+    * `d <family> <size…>`            → the model's advertised distance
+    * `css <n> <S> <L>`               → 1 iff every row has length 2n and is X-type or Z-type
+    * `innorm <S> <L>`                → 1 iff every row of L commutes with every row of S
+    * `search <n> <S> <L> <d>`        → `none` | `some <e>`  (verified CSS-split search, weight < d)
+    * `searchany <n> <S> <L> <d>`     → same over all Paulis of weight < d
+    * `dist <n> <S> <L> <m>`          → least weight ≤ m of an X-only/Z-only logical, `N` if none
+    * `distany <n> <S> <L> <m>`       → same over all Paulis
+    * `cert <S> <L> <e>`              → `<isLogicalCert> <wt e>` -/
 def c08 : List String → Option String
+  | "d" :: rest => c08ModelD rest
+  | ["css", n, s, l] => do
+      let n ← parseNat? n; let s ← parseMat? s; let l ← parseMat? l
+      pure (showBool (isCSS n s && isCSS n l))
+  | ["innorm", s, l] => do
+      let s ← parseMat? s; let l ← parseMat? l
+      pure (showBool (inNormaliser s l))
+  | ["search", n, s, l, d] => do
+      let n ← parseNat? n; let s ← parseMat? s; let l ← parseMat? l; let d ← parseNat? d
+      pure (showOptBits (lightLogical? n s l d))
+  | ["searchany", n, s, l, d] => do
+      let n ← parseNat? n; let s ← parseMat? s; let l ← parseMat? l; let d ← parseNat? d
+      pure (showOptBits (lightLogicalAny? n s l d))
+  | ["dist", n, s, l, m] => do
+      let n ← parseNat? n; let s ← parseMat? s; let l ← parseMat? l; let m ← parseNat? m
+      pure (showOpt toString (distUpTo n s l m))
+  | ["distany", n, s, l, m] => do
+      let n ← parseNat? n; let s ← parseMat? s; let l ← parseMat? l; let m ← parseNat? m
+      pure (showOpt toString (distUpToAny n s l m))
+  | ["cert", s, l, e] => do
+      let s ← parseMat? s; let l ← parseMat? l; let e ← parseBits? e
+      pure s!"{showBool (isLogicalCert s l e)} {wt e}"
   | _ => none
 
 end Qec.Drv
